@@ -13,7 +13,7 @@ import (
 func init() {
 	register("C13",
 		"that the counters land on the right civil days for every year (the term days themselves and the civil-day arithmetic between them are numeric: C03, C04).",
-		r13_1, r13_2, r13_3, r13_4)
+		r13_1, r13_2, r13_3, r13_4, r13_5)
 }
 
 var c13Accessors = map[string]bool{"GetShuJiu": true, "GetFu": true, "GetHou": true, "GetWuHou": true, "GetFestivals": true, "GetOtherFestivals": true}
@@ -44,7 +44,7 @@ func r13_1(c *Ctx, r *Report) {
 
 func r13_2(c *Ctx, r *Report) {
 	const rule = "R13.2"
-	r.rule(rule, "Stem anchors and period constants. 6 and 4 are the positions of 庚 and 戊 in the stem cycle; the nine-nines span 81 = 9*9 days with the same 9 in /9 and %9; the first dog-day period starts 20 days after the first geng day, periods last 10 days (11 for the extended middle period's second half index); the She days are first wu day + 40; pentads last 5 days with the cap len(HOU)-1 and 3 pentads per term over the 72 = 3*24 names.")
+	r.rule(rule, "Stem anchors and pentad tables. 6 and 4 are the positions of 庚 and 戊 in the stem cycle of LunarUtil.GAN (the anchors R13.5 evaluates against); pentads last 5 days, 3 pentads per term over the 72 = 3*24 phenological names, the third absorbing the remainder.")
 	gan := c.tabStrs(r, rule, "LunarUtil", "GAN")
 	pos := func(s string) int64 {
 		for i, g := range gan {
@@ -54,56 +54,12 @@ func r13_2(c *Ctx, r *Report) {
 		}
 		return -99
 	}
-	if fn := c.Fn(r, rule, "calendar.(*Lunar).GetShuJiu"); fn != nil {
-		u := intConstUses(fn)
-		has81 := false
-		for _, b := range fn.Blocks {
-			for _, ins := range b.Instrs {
-				if call, ok := ins.(*ssa.Call); ok && call.Common().StaticCallee() != nil && call.Common().StaticCallee().Name() == "NextDay" {
-					if k, ok := constInt(call.Common().Args[1]); ok && k == 81 {
-						has81 = true
-					}
-				}
-			}
-		}
-		r.check(has81 && countConst(u, token.QUO, 9) == 1 && countConst(u, token.REM, 9) == 1 && countConst(u, token.ADD, 1) == 2, rule, "calendar.(*Lunar).GetShuJiu counts 81 = 9*9 days", c.fnPos(fn), fmt.Sprintf("NextDay(81): %v; constants %v", has81, u))
-	}
-	if fn := c.Fn(r, rule, "calendar.(*Lunar).GetFu"); fn != nil {
-		u := intConstUses(fn)
-		n10 := 0
-		for _, b := range fn.Blocks {
-			for _, ins := range b.Instrs {
-				if call, ok := ins.(*ssa.Call); ok && call.Common().StaticCallee() != nil && call.Common().StaticCallee().Name() == "NextDay" {
-					if k, ok := constInt(call.Common().Args[1]); ok && k == 10 {
-						n10++
-					}
-				}
-			}
-		}
-		anchor := countConst(u, token.SUB, pos("庚")) >= 1 && pos("庚") == 6
-		r.check(anchor && countConst(u, token.ADD, 20) == 1 && countConst(u, token.ADD, 10) == 1 && n10 == 3 && countConst(u, token.LSS, 10) == 4 && countConst(u, token.ADD, 11) == 1,
-			rule, "calendar.(*Lunar).GetFu anchors on geng days with periods of 10", c.fnPos(fn), fmt.Sprintf("庚 at stem position %d; NextDay(10) x%d; constants %v", pos("庚"), n10, u))
-	}
-	if fn := c.Fn(r, rule, "calendar.(*Lunar).GetOtherFestivals"); fn != nil {
-		u := intConstUses(fn)
-		prev := false
-		for _, b := range fn.Blocks {
-			for _, ins := range b.Instrs {
-				if call, ok := ins.(*ssa.Call); ok && call.Common().StaticCallee() != nil && call.Common().StaticCallee().Name() == "NextDay" {
-					if k, ok := constInt(call.Common().Args[1]); ok && k == -1 {
-						prev = true
-					}
-				}
-			}
-		}
-		r.check(pos("戊") == 4 && countConst(u, token.SUB, 4) == 2 && countConst(u, token.ADD, 40) == 2 && countConst(u, token.ADD, 10) == 2 && prev, rule,
-			"calendar.(*Lunar).GetOtherFestivals: Cold Food is Qingming-1, She days are first wu day + 40", c.fnPos(fn), fmt.Sprintf("戊 at stem position %d; NextDay(-1): %v; constants %v", pos("戊"), prev, u))
-	}
+	r.check(pos("庚") == 6 && pos("戊") == 4, rule, "庚 and 戊 sit at stem positions 6 and 4 of LunarUtil.GAN", c.pos(c.tables.pos("LunarUtil", "GAN")), fmt.Sprintf("positions %d and %d", pos("庚"), pos("戊")))
 	hou := c.tabStrs(r, rule, "LunarUtil", "HOU")
 	wu := c.tabStrs(r, rule, "LunarUtil", "WU_HOU")
 	jq := c.tabStrs(r, rule, "calendar", "JIE_QI")
 	r.check(len(hou) == 3 && len(wu) == 3*len(jq) && len(jq) == 24, rule, "pentad tables: 3 names, 72 = 3*24 phenological names", c.pos(c.tables.pos("LunarUtil", "WU_HOU")), fmt.Sprintf("len(HOU)=%d len(WU_HOU)=%d len(JIE_QI)=%d", len(hou), len(wu), len(jq)))
-	for _, name := range []string{"calendar.(*Lunar).GetHou", "calendar.(*Lunar).GetWuHou"} {
+	for _, name := range []string{"calendar.(*Lunar).GetWuHou"} {
 		if fn := c.Fn(r, rule, name); fn != nil {
 			u := intConstUses(fn)
 			r.check(countConst(u, token.QUO, 5) == 1, rule, name+" divides the day offset by 5", c.fnPos(fn), fmt.Sprintf("constants %v", u))
@@ -113,7 +69,7 @@ func r13_2(c *Ctx, r *Report) {
 		u := intConstUses(fn)
 		r.check(countConst(u, token.MUL, 3) == 1 && countConst(u, token.GTR, 2) == 1, rule, "calendar.(*Lunar).GetWuHou indexes term*3 + pentad with the third pentad absorbing the remainder", c.fnPos(fn), fmt.Sprintf("constants %v", u))
 	}
-	r.floor(rule, 6)
+	r.floor(rule, 4)
 }
 
 // callsOn lists calls of the named *Solar method in fn as "recv.method(arg)" using variable comments.
